@@ -115,7 +115,7 @@ def truth_tested_names(fnode):
     return out
 
 
-def with_semantics(R, P, shape_fn, verdict, what, fi, rule="SEMANTICS"):
+def with_semantics(R, P, shape_fn, verdict, what, fi, rule="SEMANTICS", scope=None):
     """run a shape rule on a scratch result; ``verdict`` = (True | False | None, detail) from a bounded semantic comparison (folding of
     the pure fragment).  True: what the shape rule could not recognise is an undecided instance, not a violation.  False: the semantic
     mismatch is the finding (and the shape findings stay).  None: the shape rule decides alone."""
@@ -134,6 +134,9 @@ def with_semantics(R, P, shape_fn, verdict, what, fi, rule="SEMANTICS"):
     if ok is True:
         R.ok(rule, "%s: %s" % (what, detail), fi.key if fi is not None else "")
         for f in T.findings:
+            if scope is not None and not scope(f):
+                R.bad(f)                          # a finding about another function than the one that was folded
+                continue
             R.unknown(f.rule, f.construct, "%s:%s %s" % (f.file, f.line, f.function),
                       "shape not recognised (%s); the meaning of the fragment was confirmed by folding" % f.message[:120])
     else:
